@@ -29,10 +29,12 @@ enum Script {
     IdleLinkClosedByPeer,
     IdleLinkDetachedByPeer,
     SessionEndedByPeer,
+    /// the application detaches the link (not closing); the peer answers with a closing detach
+    DetachAnsweredByClose,
 }
 
 pub async fn run() {
-    let script = pick(&[Script::AttachRefused, Script::AttachRefused, Script::AttachNeverAnswered, Script::IdleLinkClosedByPeer, Script::IdleLinkDetachedByPeer, Script::SessionEndedByPeer]);
+    let script = pick(&[Script::AttachRefused, Script::AttachRefused, Script::AttachNeverAnswered, Script::IdleLinkClosedByPeer, Script::IdleLinkDetachedByPeer, Script::SessionEndedByPeer, Script::DetachAnsweredByClose]);
     let with_error = choice(2) == 1;
     let receiver_role = choice(2) == 1; // role of the endpoint's link under test
     let ccfg = EndpointCfg::default_cfg();
@@ -83,6 +85,7 @@ pub async fn run() {
             // detach) or detached by the peer itself (the next detach is the answer to its own)
             let mut peer_link_attached = false;
             let mut acted = false;
+            let mut closing_answer_given = false;
             let mut session_ended_by_peer = false;
             let deadline = tokio::time::Instant::now() + sim::OP_DEADLINE;
             loop {
@@ -168,6 +171,12 @@ pub async fn run() {
                             // the endpoint's handle 0 is the sibling; everything else is the link under test
                             if h == 0 {
                                 peer.send(0, &peer::detach(7, closed, None)).await;
+                            } else if peer_link_attached && script == Script::DetachAnsweredByClose && !closed && !closing_answer_given {
+                                // the peer does not keep detached links: it answers with a closing detach
+                                peer.send(0, &peer::detach(8, true, err())).await;
+                                peer_link_attached = false;
+                                closing_answer_given = true;
+                                sim::fault("detach-answered-by-closing-detach");
                             } else if peer_link_attached {
                                 // (also after a re-attach: closing a link the peer had detached takes one)
                                 peer.send(0, &peer::detach(8, closed, None)).await;
@@ -264,6 +273,34 @@ pub async fn run() {
             world::quiesce_pair(&net).await;
             // the application's next operation on the link
             let r = match link {
+                L::S(s) if script == Script::DetachAnsweredByClose => {
+                    let r1 = match sim::op("detach answered by a closing detach", s.detach()).await {
+                        Some(Ok(d)) => {
+                            if choice(2) == 0 { kept.push(Box::new(d)); }
+                            "Ok(())".to_string()
+                        }
+                        Some(Err((d, e))) => {
+                            if choice(2) == 0 { kept.push(Box::new(d)); }
+                            format!("Err({:?})", e)
+                        }
+                        None => return,
+                    };
+                    (r1.clone(), r1)
+                }
+                L::R(rc) if script == Script::DetachAnsweredByClose => {
+                    let r1 = match sim::op("detach answered by a closing detach", rc.detach()).await {
+                        Some(Ok(d)) => {
+                            if choice(2) == 0 { kept.push(Box::new(d)); }
+                            "Ok(())".to_string()
+                        }
+                        Some(Err((d, e))) => {
+                            if choice(2) == 0 { kept.push(Box::new(d)); }
+                            format!("Err({:?})", e)
+                        }
+                        None => return,
+                    };
+                    (r1.clone(), r1)
+                }
                 L::S(mut s) => {
                     let r1 = if learn_by_on_detach && script != Script::SessionEndedByPeer {
                         match sim::op("on_detach on the link under test", s.on_detach()).await {
@@ -344,6 +381,18 @@ pub async fn run() {
                     }
                     sim::probe("peer-detach-reported");
                 }
+                Script::DetachAnsweredByClose => {
+                    // the link is closed, not detached: the caller is told so, with the peer's error
+                    if r.0.starts_with("Ok") {
+                        sim::violation("closing-answer-reported-as-detached", format!("the peer answered the application's detach with a closing detach; detach() returned {}", r.0));
+                        return;
+                    }
+                    if with_error && !r.0.contains("refused-by-peer") {
+                        sim::violation("peer-error-not-carried", format!("the peer's closing detach carried 'refused-by-peer'; detach() returned {}", r.0));
+                        return;
+                    }
+                    sim::probe("closing-answer-to-detach-reported");
+                }
                 Script::SessionEndedByPeer => {
                     session_dead = true;
                     if r.0.starts_with("Ok") {
@@ -357,11 +406,12 @@ pub async fn run() {
         }
     }
     // a peer's detach is answered in kind no later than the application's next operation on the link
-    if matches!(script, Script::AttachRefused | Script::IdleLinkClosedByPeer | Script::IdleLinkDetachedByPeer) {
+    if matches!(script, Script::AttachRefused | Script::IdleLinkClosedByPeer | Script::IdleLinkDetachedByPeer | Script::DetachAnsweredByClose) {
         world::quiesce_pair(&net).await;
         mon.borrow_mut().sync();
         let m = mon.borrow();
-        let answered = m.ends[0].sessions.iter().flat_map(|s| s.links.iter()).find(|l| l.name == "under-test").map(|l| (l.detached, l.detach_closed));
+        // (the latest attach of that name: answering a closing detach to one's own detach takes a re-attach)
+        let answered = m.ends[0].sessions.iter().flat_map(|s| s.links.iter()).filter(|l| l.name == "under-test").last().map(|l| (l.detached, l.detach_closed));
         let want_closed = script != Script::IdleLinkDetachedByPeer;
         match answered {
             Some((true, closed)) if closed == want_closed || (closed && !want_closed) => sim::probe("peer-detach-answered-in-kind"),
@@ -553,6 +603,149 @@ pub async fn run_frames_after_local_end() {
     drop(sender);
     drop(receiver);
     let td = async {
+        let _ = tokio::time::timeout(std::time::Duration::from_secs(20), client.close()).await;
+    };
+    let _ = world::join2(td, peer::serve_teardown(&mut peer, 10_000)).await;
+}
+
+// ---------------------------------------------------------------------------------------
+// "Ending a session or dropping a handle flushes what was already queued": a detach queued behind
+// transfers that the session holds back for the peer's incoming window. The peer reopens the window
+// by exactly the number of transfers held back and then waits - it sends no further flow: the
+// transfers and then the detach must come out all the same.
+
+pub async fn run_detach_behind_held_transfers() {
+    let w = 1 + choice(3);
+    let h = 1 + choice(3);
+    let teardown = choice(3); // 0 close, 1 detach, 2 drop
+    let ccfg = EndpointCfg::default_cfg();
+    let (nab, nba, nd) = world::draw_net(false);
+    let nio = pick(&[0u32, 7, u32::MAX - 1]);
+    sim::set_config(format!("variant=detach-behind-held-transfers peer-window={} held={} teardown={} next-outgoing-id={} {}", w, h, ["close", "detach", "drop"][teardown as usize], nio, nd));
+    sim::mark_nontrivial();
+    sim::set_panic_is_violation(true);
+    let models = Models { sess: true, link: true, ..Models::none() };
+    let cvp = match peer::client_vs_peer(&ccfg, peer::open("peer", Some(65536), Some(255), None), nab, nba, models).await {
+        Some(x) => x,
+        None => return,
+    };
+    let peer::ClientVsPeer { mut client, mut peer, net, mon, .. } = cvp;
+    let bf = sim::in_group(1, Session::builder().next_outgoing_id(nio).begin(&mut client));
+    let pb = async {
+        let b = peer.expect(wire::BEGIN).await?;
+        peer.send(0, &peer::begin(Some(b.channel), 0, w, 5000)).await;
+        Some(())
+    };
+    let mut session = match sim::op("begin", world::join2(bf, pb)).await {
+        Some((Ok(s), Some(()))) => s,
+        _ => return,
+    };
+    let af = sim::in_group(
+        1,
+        Sender::builder().name("snd").target("q").sender_settle_mode(fe2o3_amqp::types::definitions::SenderSettleMode::Settled).attach(&mut session),
+    );
+    let pa = async {
+        peer.expect(wire::ATTACH).await?;
+        let mut a = AttachArgs::receiver("snd", 7);
+        a.snd_settle_mode = Some(1);
+        peer.send(0, &peer::attach(&a)).await;
+        let f = FlowArgs { next_incoming_id: Some(nio), incoming_window: w, next_outgoing_id: 0, outgoing_window: 5000, handle: Some(7), delivery_count: Some(0), link_credit: Some(100), ..Default::default() };
+        peer.send(0, &peer::flow(&f)).await;
+        Some(())
+    };
+    let sender = match sim::op("attach sender", world::join2(af, pa)).await {
+        Some((Ok(s), Some(()))) => s,
+        _ => return,
+    };
+    let total = (w + h) as usize;
+    let app = async {
+        let mut sender = sender;
+        for i in 0..total {
+            if let Err(e) = sender.send(msgs::gen_message(300 + i as u64, 60, 1)).await {
+                return format!("send #{} failed: {:?}", i, e);
+            }
+        }
+        match teardown {
+            0 => format!("{:?}", sender.close().await),
+            1 => format!("{:?}", sender.detach().await.map(|_| ()).map_err(|(_, e)| e)),
+            _ => {
+                drop(sender);
+                "Ok(dropped)".to_string()
+            }
+        }
+    };
+    let script = async {
+        // the first w transfers fit the window
+        let mut transfers = 0u32;
+        let mut frames = Vec::new();
+        if !peer::settle(&mut peer, &net, |f| frames.push(f.clone())).await {
+            return Err("no quiescence".to_string());
+        }
+        for f in &frames {
+            if f.code == wire::TRANSFER {
+                transfers += 1;
+            }
+            if f.code == wire::DETACH {
+                return Err(format!("the detach overtook {} transfers held for the window", w + h - transfers));
+            }
+        }
+        if transfers != w {
+            return Err(format!("peer window {}: {} transfers arrived before the window was reopened", w, transfers));
+        }
+        // reopen by exactly the number held back; nothing more from the peer after this
+        let f = FlowArgs { next_incoming_id: Some(nio.wrapping_add(w)), incoming_window: h, next_outgoing_id: 0, outgoing_window: 5000, ..Default::default() };
+        peer.send(0, &peer::flow(&f)).await;
+        sim::fault("window-reopened-by-exactly-the-held-count");
+        let deadline = tokio::time::Instant::now() + std::time::Duration::from_secs(120);
+        let mut detach = None;
+        while detach.is_none() {
+            if tokio::time::Instant::now() >= deadline || peer.eof {
+                return Err(format!(
+                    "the peer reopened its window by {} for the {} transfers held back; {} transfers arrived, the {} queued behind them never did",
+                    h,
+                    h,
+                    transfers - w,
+                    if teardown == 1 { "detach" } else { "closing detach" }
+                ));
+            }
+            for f in peer.drain_for(20).await {
+                if f.code == wire::TRANSFER {
+                    if detach.is_some() {
+                        return Err("a transfer followed the detach".to_string());
+                    }
+                    transfers += 1;
+                }
+                if f.code == wire::DETACH {
+                    detach = Some(f);
+                }
+            }
+        }
+        if transfers != w + h {
+            return Err(format!("the detach arrived after {} of {} transfers", transfers, w + h));
+        }
+        let closed = detach.unwrap().perf.as_ref().unwrap().field(1).as_bool().unwrap_or(false);
+        peer.send(0, &peer::detach(7, closed, None)).await;
+        Ok(())
+    };
+    let (app_r, script_r) = match sim::op("teardown behind held transfers", world::join2(app, script)).await {
+        Some(x) => x,
+        None => return,
+    };
+    mon.borrow_mut().sync();
+    if sim::has_violation() {
+        return;
+    }
+    if let Err(e) = script_r {
+        sim::violation("queued-detach-not-flushed", e);
+        return;
+    }
+    if !app_r.starts_with("Ok") {
+        sim::violation("teardown-result", format!("the peer answered in kind; the call returned {}", app_r));
+        return;
+    }
+    sim::probe("detach-flushed-behind-held-transfers");
+    let td = async {
+        let _ = tokio::time::timeout(std::time::Duration::from_secs(20), session.end()).await;
         let _ = tokio::time::timeout(std::time::Duration::from_secs(20), client.close()).await;
     };
     let _ = world::join2(td, peer::serve_teardown(&mut peer, 10_000)).await;
